@@ -659,6 +659,33 @@ func (c *Ctx) Forall(vars []*Term, body *Term, pats [][]*Term) *Term {
 	if c.isTrue(body) {
 		return body
 	}
+	// keep only well-formed patterns (no logical connectives / ite inside, mentions a bound variable)
+	var okPats [][]*Term
+	for _, p := range pats {
+		var ts []*Term
+		for _, t := range p {
+			if t.bound && patternSafe(t) {
+				ts = append(ts, t)
+			}
+		}
+		if len(ts) > 0 {
+			// a multi-pattern must cover all variables; otherwise the solver rejects it
+			cov := map[*Term]bool{}
+			for _, t := range ts {
+				collectBound(t, cov)
+			}
+			all := true
+			for _, v := range vars {
+				if !cov[v] {
+					all = false
+				}
+			}
+			if all {
+				okPats = append(okPats, ts)
+			}
+		}
+	}
+	pats = okPats
 	q := c.mk("forall", SBool, append(append([]*Term{}, vars...), body)...)
 	q.bound = body.bound
 	// recompute: q binds vars; it is closed iff all bound leaves inside are in vars. We
@@ -678,6 +705,55 @@ func (c *Ctx) Forall(vars []*Term, body *Term, pats [][]*Term) *Term {
 	qpats[q] = pats
 	qnvars[q] = len(vars)
 	return q
+}
+
+// symbols collects the declared constants and uninterpreted functions a term mentions (very
+// generic ones excluded), for relevance filtering of hypotheses.
+func (c *Ctx) symbols(t *Term, out map[string]bool, memo map[*Term]bool) {
+	if memo[t] {
+		return
+	}
+	memo[t] = true
+	if t.leaf {
+		if t.decl && !strings.HasPrefix(t.op, "allocTop") {
+			out[t.op] = true
+		}
+		return
+	}
+	if _, ok := c.funcs[t.op]; ok {
+		switch t.op {
+		case "StrElem", "str_eq", "str_lt", "str_id", "str_cat":
+		default:
+			out[t.op] = true
+		}
+	}
+	for _, a := range t.args {
+		c.symbols(a, out, memo)
+	}
+	if t.op == "forall" {
+		for _, p := range qpats[t] {
+			for _, x := range p {
+				c.symbols(x, out, memo)
+			}
+		}
+	}
+}
+
+func patternSafe(t *Term) bool {
+	if t.leaf {
+		return true
+	}
+	switch t.op {
+	case "ite", "not", "and", "or", "=>", "=", "<", "<=", ">", ">=", "distinct", "forall", "xor",
+		"bvslt", "bvsle", "bvult", "bvule", "fp.lt", "fp.leq", "fp.eq", "fp.gt", "fp.geq", "fp.isNaN":
+		return false
+	}
+	for _, a := range t.args {
+		if !patternSafe(a) {
+			return false
+		}
+	}
+	return true
 }
 
 func (c *Ctx) Exists(vars []*Term, body *Term, pats [][]*Term) *Term {
